@@ -277,18 +277,10 @@ class TestNode(Runnable):
     def shared_filtered_results(self) -> list[dict[str, str]]:
         """Test results shared across all bridged nodes."""
         all_results = self.shared_results
-        if (
-            self.started_worker
-            and "swarm" not in self.params["pool_scope"]
-            and self.params.get("nets_spawner") == "lxc"
-        ):
+        if self.started_worker and "swarm" not in self.params["pool_scope"]:
             # has separate results for each worker (doesn't matter eager of full)
-            scope_filter = self.started_worker.swarm_id + "." + self.started_worker.id
-        elif (
-            self.started_worker
-            and "cluster" not in self.params["pool_scope"]
-            and self.params.get("nets_spawner") == "remote"
-        ):
+            scope_filter = self.started_worker.params["name"].split(".", 1)[1]
+        elif self.started_worker and "cluster" not in self.params["pool_scope"]:
             # has results for an entire swarm by at least N of its workers
             scope_filter = self.started_worker.swarm_id
         else:
@@ -530,18 +522,10 @@ class TestNode(Runnable):
         """
         if self.is_flat():
             return False
-        if (
-            worker
-            and "swarm" not in self.params["pool_scope"]
-            and self.params.get("nets_spawner") == "lxc"
-        ):
+        if worker and "swarm" not in self.params["pool_scope"]:
             # is started separately by each worker (doesn't matter eager of full)
             return worker in self.shared_started_workers
-        elif (
-            worker
-            and "cluster" not in self.params["pool_scope"]
-            and self.params.get("nets_spawner") == "remote"
-        ):
+        elif worker and "cluster" not in self.params["pool_scope"]:
             own_cluster = worker.swarm_id
             own_cluster_started_hosts = {
                 w for w in self.shared_started_workers if w.swarm_id == own_cluster
@@ -579,18 +563,10 @@ class TestNode(Runnable):
         """
         if self.is_flat():
             return True
-        if (
-            worker
-            and "swarm" not in self.params["pool_scope"]
-            and self.params.get("nets_spawner") == "lxc"
-        ):
+        if worker and "swarm" not in self.params["pool_scope"]:
             # is finished separately by each worker (doesn't matter eager of full)
             return worker in self.shared_finished_workers
-        elif (
-            worker
-            and "cluster" not in self.params["pool_scope"]
-            and self.params.get("nets_spawner") == "remote"
-        ):
+        elif worker and "cluster" not in self.params["pool_scope"]:
             own_cluster = worker.swarm_id
             own_cluster_finished_hosts = {
                 w for w in self.shared_finished_workers if w.swarm_id == own_cluster
